@@ -193,26 +193,30 @@ class Check(PropertyCheck):
     prop = "C44"
     design_ref = "§5 C44"
     level_text = ("Lean theorems over ALL histories of add_option / subscribe / update / update_known / update_defer / set / "
-                  "process_deferred / reset with arbitrary listener functions: typed_always (every state reached and every "
-                  "state shown to a listener is well-typed, induction over the history), "
-                  "rejected_update_restores_everything (any failing update returns the identical state), "
-                  "…listeners_see_restored_state_partial (+ counterexample: a listener that also rejects the restored state "
-                  "cuts the rollback notification short, F-C44c), accepted_update_notifies_assigned_names, "
-                  "config_roundtrip_nondefault for any YAML with parse(dump d)=d (+ partial/counterexample for U+0085, F-C44b). "
-                  "Listeners that issue nested updates of other options from inside their handlers are modelled too (notifyW/"
-                  "coreUpdate/nestedAt, depth bound 2): typed_always_nested, nested_rejected_update_restores_everything (+_quiet: "
-                  "every assignment of the aborted transaction incl. nested ones is discarded), nested_model_agrees_with_flat. "
-                  "Model tied to the real OptManager by differential runs of random histories (every reply: outcome, every "
-                  "listener call with the values it saw, all option values, deferred names; save→load values).")
-    level_note = ("trusted: Lean kernel; differential tie model↔optmanager.py on generated histories; YAML library is a parameter "
-                  "of the round-trip theorem (its law is exercised on the real ruamel.yaml by the oracle; it fails for strings "
-                  "containing U+0085 = F-C44b); int() of `set` specs modelled for [+-]?[0-9]+ only; tuples (accepted for "
-                  "Sequence[str]) are not generated; weak-reference cleanup of subscribers not modelled. "
-                  "listeners_see_restored_state is PARTIAL: proved (flat listeners) when the rollback notification is delivered "
-                  "completely; the accepted/listener-view theorems are stated for listeners that only accept or reject — for "
-                  "listeners issuing nested updates the Lean theorems cover typedness and the restoration of all options, the "
-                  "listener-view clauses are checked by the direct oracle only (F-C44d recorded); nested depth bounded by 2 in "
-                  "model and harness listeners.")
+                  "process_deferred / reset with arbitrary listener functions, incl. listeners that issue nested updates from inside "
+                  "their handlers (depth bound 2): typed_always, typed_always_nested; rejected_update_restores_everything, "
+                  "rejected_update_known_restores_state, nested_rejected_update_restores_everything(_quiet), "
+                  "nested_rejected_update_over_histories; listeners' final view: rejected_update_listeners_see_restored_state_partial "
+                  "(+counterexample F-C44c) and nested_rejected_update_listeners_see_restored_state_partial (+counterexample F-C44d; a "
+                  "TypeError notifies nobody); accepted_update_notifies_assigned_names, update_is_update_known, "
+                  "nested_model_agrees_with_flat; `set`: the typed parsing of EVERY value string is inside the model (Python int() "
+                  "transcribed: whitespace and decimal digits of every script from generated Unicode tables, sign, single underscores; "
+                  "bool toggle/true/false/omitted; Sequence collect/clear; Optional none): parse_setval_typed, set_never_type_error "
+                  "(all histories), set_bool_toggle, set_sequence_collects, set_bare_name, set_scalar_multiple_refused, "
+                  "deferred_spec_is_parsed_when_declared (every value string, every type); config_roundtrip_nondefault for any YAML with "
+                  "parse(dump d)=d (+partial/counterexample for U+0085, F-C44b). Model tied to the real OptManager by differential "
+                  "runs (every reply: outcome, every listener call at every depth with the values it saw, all option values, deferred "
+                  "names; save→load values).")
+    level_note = ("trusted: Lean kernel; differential tie model↔optmanager.py on generated histories; the YAML library is a parameter "
+                  "of the round-trip theorem (its law is exercised on the real ruamel.yaml by the oracle; it fails exactly as the NEL "
+                  "line folding for strings containing U+0085 = F-C44b); Gen/C44.lean (Unicode Nd blocks, non-ASCII whitespace) is "
+                  "regenerated from this interpreter's unicodedata on every run; tuples (accepted for Sequence[str]) are not generated; "
+                  "weak-reference cleanup of subscribers not modelled; nested depth bounded by 2 in model and harness listeners. "
+                  "PARTIAL: 'listeners end up observing the restored state' is false for the code (F-C44c, F-C44d) and proved under the "
+                  "guards rollback-notification-delivered / quiet / listener concerned by the outer names; accepted_update_… is stated "
+                  "for listeners that only accept or reject (for acting listeners that clause is checked by the direct oracle); "
+                  "deferred_spec_is_parsed_when_declared is stated from the empty manager. known(): exact classifiers, near misses in "
+                  "known_selftest (run in setup).")
     technique = "Lean 4 proof (induction over histories, invariants) + differential model-vs-code correspondence on a real OptManager"
     rule = ("histories of 3–16 operations over ≤6 options of the six types: declarations (some ill-typed / re-declared), "
             "subscribers and changed-receivers with verdict rules (never/always/value==v/name updated) and, for a third of them, "
